@@ -87,6 +87,64 @@ theorem in_place_unsafe :
       (crash d (protocolInPlace file chunks) k).get file ≠ some (concat chunks) :=
   ⟨[("f", "a = 1\nb = 2\n")], "f", ["a = 3\n", "b = 4\n"], 2, by decide⟩
 
+/-! ### sessions on one object: every entry point, every option combination, renames -/
+
+/-- **Clause (b) on a whole session.**  After any sequence of derivative evaluations
+(issued directly with any `scaled` flag, or by `check_derivatives`, the finite-difference
+hessian, the optimiser) and renames of the object since the start of an estimation:
+either no evaluation had a finite gradient and no file changed, or there is an evaluated
+point with finite gradient, at least as good *on the data* as every evaluated point with
+finite gradient, which is exactly the content of the file of the model name the object
+had when that point was evaluated. -/
+theorem session_best_in_its_file {α} (ge : α → α → Bool) (hge : GeOK ge) (s₀ : Sess α)
+    (ops : List (Op α)) (hnr : NoReset ops) :
+    let s := srun ge (sstep ge s₀ .reset) ops
+    let seen := namedEvals s₀.name ops
+    ((∀ p ∈ seen, p.2.finite = false) ∧ s.files = s₀.files ∧ s.best = none) ∨
+    (∃ p ∈ seen, p.2.finite = true ∧ s.files.get p.1 = some p.2.x ∧ s.best = some p.2.f ∧
+        ∀ q ∈ seen, q.2.finite = true → ge p.2.f q.2.f = true) :=
+  IterFile.srun_inv ge hge.total hge.trans s₀ ops hnr
+
+/-- **The scaled flag is irrelevant for the file; without renames a session is a history.**
+Whatever the `scaled` flags of the calls, the file of the current name and the marker
+after a sequence of evaluations are those of the single-file machine `run` fed with the
+log likelihoods on the data, so `file_is_best` / `every_prefix_is_best` apply to
+sessions that mix scaled and unscaled calls. -/
+theorem session_scaled_irrelevant {α} (ge : α → α → Bool) (s : Sess α)
+    (l : List (Eval α × Bool)) :
+    let s' := srun ge s (l.map fun p => Op.eval p.1 p.2)
+    let t := run ge ⟨s.best, s.files.get s.name⟩ (l.map (·.1))
+    s'.name = s.name ∧ s'.best = t.best ∧ s'.files.get s.name = t.file :=
+  IterFile.srun_evals_as_run ge l s
+
+/-- **File name from the model name: an evaluation touches only the file of the current
+name.**  The files of all other model names are what they were. -/
+theorem session_touches_only_current_name {α} (ge : α → α → Bool) (s : Sess α) (e : Eval α)
+    (sc : Bool) (n : String) (hn : n ≠ s.name) :
+    (sstep ge s (.eval e sc)).files.get n = s.files.get n :=
+  IterFile.sstep_eval_frame ge s e sc n hn
+
+/-- **A new best point is saved under the current name**, whatever the flag of the call
+and whatever names the object had before. -/
+theorem session_new_best_saved {α} (ge : α → α → Bool) (hge : GeOK ge) (s : Sess α)
+    (e : Eval α) (sc : Bool) (hfin : e.finite = true)
+    (hbest : ∀ b, s.best = some b → ge e.f b = true) :
+    (sstep ge s (.eval e sc)).files.get s.name = some e.x := by
+  have hrefl : ge e.f e.f = true := by rcases hge.total e.f e.f with h | h <;> exact h
+  have hs : saves ge s.best e = true := by
+    rw [IterFile.saves_finite ge _ e hfin]
+    cases hb : s.best with
+    | none => exact hrefl
+    | some b => exact hbest b hb
+  show (if saves ge s.best e then s.files.set s.name e.x else s.files).get s.name = _
+  rw [hs]
+  exact IterFile.files_get_set_same _ _ _
+
+/-- renames and resets never touch a file -/
+theorem session_rename_keeps_files {α} (ge : α → α → Bool) (s : Sess α) (n : String) :
+    (sstep ge s (.rename n)).files = s.files ∧ (sstep ge s (.reset : Op α)).files = s.files :=
+  ⟨rfl, rfl⟩
+
 /-! ### non-vacuity -/
 
 def geInt (a b : Int) : Bool := decide (a ≥ b)
@@ -105,5 +163,16 @@ example : NameOK "b=1 x".toList ∧ ValueOK "-1.5e-07".toList := by
   unfold NameOK ValueOK; decide
 example : parseLine (renderLine "b=1 x".toList "-1.5e-07".toList)
     = some ("b=1 x".toList, "-1.5e-07".toList) := by decide
+
+/-- a session that mixes flags and names (f in hundredths): a scaled poor point under the
+default name, a rename, an unscaled good point, a scaled point in between; the good point
+is in the file of the new name, the file of the old name keeps the first point -/
+example : (srun geInt (sstep geInt ⟨"default", none, []⟩ .reset)
+    [.eval ⟨["0"], -51392, true⟩ true, .rename "final", .eval ⟨["1"], -14060, true⟩ false,
+     .eval ⟨["2"], -16446, true⟩ true, .eval ⟨["3"], 7, false⟩ false]).files
+    = [("final", ["1"]), ("default", ["0"])] := by decide
+
+example : NoReset ([.eval ⟨["0"], -5, true⟩ true, .rename "b", .eval ⟨["1"], -4, true⟩ false] : List (Op Int)) := by
+  simp [NoReset]
 
 end C15
